@@ -157,3 +157,4 @@ u32 isgraph(u32 c) { return (i32)c >= 0x21 && (i32)c <= 0x7e; }
 u32 isprint(u32 c) { return (i32)c >= 0x20 && (i32)c <= 0x7e; }
 u32 isspace(u32 c) { return ((i32)c >= 9 && (i32)c <= 13) || c == 32; }
 u32 isdigit(u32 c) { return (i32)c >= 48 && (i32)c <= 57; }
+u64 vp_concretize(u64 v) { return v; }
